@@ -12,7 +12,25 @@ fsmodel.gen_async_trait), (b) the only byte string that may leave on the reply c
 once, and never for FORGET / BATCH_FORGET.
 
 The sync handlers the async dispatcher falls back to are emitted WITHOUT body (`external_body`): their contracts are proved in unit
-`server` from the same text of server.py and are only *used* here (ASYNCSRV_FULL=1 re-verifies them in this file as well).
+`server` from the same text of server.py and are only *used* here (ASYNCSRV_FULL=1 re-verifies them in this file as well).  C20 is a
+RELATIVE property: a defect of a sync handler is a C02/C03 finding of unit `server`, not a difference between the two paths.
+
+What "same" this gives: for every request and every filesystem result, both paths can only call the operation Spec names, with the
+argument values Spec names (request context after id remapping included), and can only emit the byte string Spec names, at most
+once, never for FORGET/BATCH_FORGET; over-long messages, unknown opcodes and the 37 fallback opcodes are tied to the same clauses of
+reply_msg / want_msg as in the sync dispatcher.  What it does NOT give (Spec leaves it open, so the two paths could differ
+there without either violating Spec): which error reply - or none - a MALFORMED request gets; that a reply IS sent / the operation
+IS called (contracts forbid, they cannot demand); the return value of handle_message; logging and MetricsHook calls; the content
+moved through the zero-copy stream objects; interleavings, cancellation and Send-ness (R18); the writers other than the abstract
+FuseDev-style Writer (prelude/transport.rs + asynctransport.rs + async_commit_model below).
+Results: async_open / async_create cannot return the passthrough backing id; their result (h, o) stands for the sync result
+(h, o, None) - see fsmodel.gen_async_trait.
+
+On the tree 60f75a4+fixes the unit reports four genuine deviations (reproduced in findings/repro_async.rs, repaired by
+findings/c20_async_fixes.patch, with which the unit is STATUS ok): over-long / small-reply-buffer ENOMEM path of async_handle_message
+([C20.do_reply_error.noreply]), second device write after every async error reply ([once] in async_do_reply_error, [C20.reply_error.one]),
+async_write refusing size > MAX_BUFFER_SIZE ([C20.reply_error.bytes] in async_write), async_create encoding the entry by hand
+([C20.reply_ok.bytes] in async_create).
 """
 import copy
 import os
@@ -114,7 +132,7 @@ def unit(root='/repo'):
             if isinstance(it, Group):
                 out.append(Group(it.header, strip(it.items)))
             elif isinstance(it, Fn):
-                if it.name in NOT_NEEDED:
+                if it.name in NOT_NEEDED and not (full and it.name in ('do_readdir', 'do_rename', 'add_dirent')):
                     continue
                 f = copy.copy(it)
                 f.requires = tagged(it.requires, it.name) if it.file == SV.SYNC else [retag(c) for c in it.requires]
